@@ -94,3 +94,34 @@ def main(ctx):
         for i, (c, f) in enumerate(zip(wides, fw)):
             recipe.account(ctx, 'cond-wide%d' % i, 'Cond', c, f.result())
     ctx.exhaustive = True
+    real_kernel(ctx)
+
+
+OBS_INV = ['NobodyStuck', 'CondConserves', 'CondLockExcludes', 'UntimedNeverTimesOut', 'SemBound', 'EventExact']
+
+
+def real_kernel(ctx):
+    """binding B: real processes on the real kernel semaphores, judged by SyncObs.tla (a falsified
+    formula is reported only if it is falsified again when the scenario set is run once more)"""
+    from lib import monitor, sandbox
+    scale = sandbox.time_scale()
+
+    def once():
+        rc, data, log = sandbox.run_driver('harness.sync_main', [ctx.tier], timeout=500 * scale,
+                                           env={'VERIF_TIME_SCALE': str(scale)})
+        if rc != 0 or data is None:
+            raise RuntimeError('synchronisation driver failed (rc=%s): %s' % (rc, log[-1500:]))
+        _, verdicts = monitor.check('SyncObs', data, invariants=OBS_INV)
+        return data, set((v['name'], data[v['trace']]['kind'], data[v['trace']]['method']) for v in verdicts)
+    data, bad = once()
+    ctx.traces += len(data)
+    ctx.replay_steps += len(data)
+    ctx.note('real_sync_scenarios', data)
+    if bad:
+        data2, bad2 = once()
+        for key in sorted(bad & bad2):
+            d = next(x for x in data2 if (x['kind'], x['method']) == key[1:])
+            ctx.violation('real processes (%s, %s): %s falsified twice: %r' % (key[1], key[2], key[0], d),
+                          'observed:sync:%s:%s' % (key[0], key[1]), replay=d)
+        if bad - bad2:
+            ctx.note('unreproducible_observations', sorted(bad - bad2))
